@@ -51,6 +51,8 @@ fn life_jobs(props: &[&'static str], thorough: bool, read_faults: bool) -> Vec<J
     let mut v = Vec::new();
     let rf = |mut c: WCfg| {
         c.read_faults = read_faults && thorough;
+        // thorough tier: one event may be held back so that it reaches the plugin together with the next one
+        c.max_holds = if thorough { 1 } else { 0 };
         c
     };
     if !thorough {
@@ -122,6 +124,7 @@ pub fn jobs(id: &str, thorough: bool) -> Vec<Job> {
         "C06" => {
             for mut c in scen::s_many() {
                 c.read_faults = thorough;
+                c.max_holds = 1;
                 v.push(w(c, &["C06"], if thorough { 3 } else { 2 }, true));
             }
             for j in life_jobs(&["C06"], thorough, true).into_iter().take(if thorough { 100 } else { 3 }) {
